@@ -85,8 +85,15 @@ fn inputs(ctx: &mut Ctx, o: Obj, n: usize, interior: bool) -> (V1, V1) {
 
 /// loss / gradient formulas, clamp, shape; real arithmetic; per sign path for AE/MAE/RMSE
 pub fn formula_case(o: Obj, sh: Sh, clamp: bool) -> Case {
+    formula_case_k(o, sh, if clamp { 1 } else { 0 })
+}
+
+/// `kind`: 0 no clamp, 1 a finite symbolic interval, 2 `(lo, +inf)`, 3 `(-inf, hi)`, 4 `(-inf, +inf)` — one-sided
+/// intervals are intervals too
+pub fn formula_case_k(o: Obj, sh: Sh, kind: u8) -> Case {
+    let clamp = kind != 0;
     Case {
-        id: format!("C06/{}/{}/{}", o.name(), sh.tag(), if clamp { "clamp" } else { "noclamp" }),
+        id: format!("C06/{}/{}/{}", o.name(), sh.tag(), ["noclamp", "clamp", "clamp-lower-only", "clamp-upper-only", "clamp-infinite"][kind as usize]),
         property: "C06",
         family: "objective::loss",
         class: o.name().to_string(),
@@ -95,9 +102,17 @@ pub fn formula_case(o: Obj, sh: Sh, clamp: bool) -> Case {
         run: Box::new(move |ctx| {
             let n = sh.count();
             let (p, t) = inputs(ctx, o, n, false);
-            let (lo, hi) = (ctx.var("lo"), ctx.var("hi"));
+            let (mut lo, mut hi) = (ctx.var("lo"), ctx.var("hi"));
+            if kind == 2 || kind == 4 {
+                hi = lit(f32::INFINITY);
+            }
+            if kind == 3 || kind == 4 {
+                lo = lit(f32::NEG_INFINITY);
+            }
             let f = if clamp {
-                ctx.assume(B::Le(lo, hi));
+                if kind == 1 {
+                    ctx.assume(B::Le(lo, hi));
+                }
                 Function::create(o.lib(), Some((lo, hi)))
             } else {
                 Function::create(o.lib(), None)
@@ -111,8 +126,11 @@ pub fn formula_case(o: Obj, sh: Sh, clamp: bool) -> Case {
                 let r = grad_ref(o, p[i], t[i], n);
                 let r = if clamp { r.max(lo).min(hi) } else { r };
                 ctx.eq(&format!("gradient[{}]", i), g[i], r);
-                if clamp {
-                    ctx.claim(&format!("gradient-in-interval[{}]", i), Th::Real, B::within(g[i], lo, hi));
+                match kind {
+                    1 => ctx.claim(&format!("gradient-in-interval[{}]", i), Th::Real, B::within(g[i], lo, hi)),
+                    2 => ctx.claim(&format!("gradient-in-interval[{}]", i), Th::Real, B::Le(lo, g[i])),
+                    3 => ctx.claim(&format!("gradient-in-interval[{}]", i), Th::Real, B::Le(g[i], hi)),
+                    _ => {}
                 }
             }
         }),
@@ -195,6 +213,13 @@ pub fn cases(tier: Tier, _seed: u64) -> Vec<Case> {
             }
             out.push(formula_case(o, *sh, false));
             out.push(formula_case(o, *sh, true));
+            if sh.count() <= 2 || full {
+                for kind in [2u8, 3, 4] {
+                    if full || kind != 4 {
+                        out.push(formula_case_k(o, *sh, kind));
+                    }
+                }
+            }
             if matches!(o, Obj::AE | Obj::MSE | Obj::BinaryCrossEntropy | Obj::KLDivergence) {
                 out.push(derivative_case(o, *sh));
             }
